@@ -28,6 +28,10 @@ from common import SPEC, VERIF  # noqa: E402
 from ctx import Ctx, MachineryError  # noqa: E402
 
 
+# properties whose statement promises a result for every well-formed input (DESIGN 3.1 / 11.5)
+PROMISING = {"C02", "C06", "C07", "C08", "C09", "C10", "C13", "C14"}
+
+
 def setup() -> int:
     import subprocess
 
@@ -85,8 +89,18 @@ def main() -> int:
         print("MACHINERY FAILURE: " + str(e), file=sys.stderr)
         ctx.work.cleanup()
         return 2
-    except Exception:  # noqa: BLE001
+    except Exception as e:  # noqa: BLE001
         traceback.print_exc()
+        # The library raised inside a call the harness makes only on input it constructed as well-formed.
+        # For the properties that PROMISE a result on well-formed input this is a violation, not a harness bug.
+        tb = traceback.extract_tb(e.__traceback__)
+        from common import REPO
+        in_lib = bool(tb) and str(tb[-1].filename).startswith(str(REPO))
+        if in_lib and prop in PROMISING and not a.replay:
+            ctx.violation("well-formed-input-rejected-by-the-library",
+                          {"kind": "unexpected-exception", "exception": type(e).__name__, "message": str(e)[:300],
+                           "where": [f"{f.filename}:{f.lineno} {f.name}" for f in tb[-6:]]})
+            return ctx.finish()
         print("MACHINERY FAILURE: unexpected exception in the harness", file=sys.stderr)
         ctx.work.cleanup()
         return 2
